@@ -28,8 +28,19 @@ def run_tc(ctx, cls):
     # 2. spec -> impl graph walk
     graph = ctx.tlc_generate("MC_TransferControl", "MC_TransferControl_graph_quick.cfg" if q else "MC_TransferControl_graph_thorough.cfg",
                              MC_DEPS, timeout=3000)
-    out = ctx.work / "walk.json"
-    ctx.vh("tc-walk", "--graph", graph, "--depth", 4 if q else 5, "--threads", 12, "--out", out, timeout=3000)
+    # the walk is a function of (graph, harness binary built from /repo's tree, depth): C11 and C13 share it
+    import hashlib
+    key = hashlib.sha256(vlib.VH.read_bytes()).hexdigest()[:16]
+    depth = 4 if q else 5
+    out = vlib.WORK / "gen" / f"walk.{graph.name}.{key}.d{depth}.json"
+    if not out.exists():
+        for old in (vlib.WORK / "gen").glob(f"walk.{graph.name}.*.d{depth}.json"):
+            old.unlink()
+        tmp = ctx.work / "walk.json"
+        ctx.vh("tc-walk", "--graph", graph, "--depth", depth, "--threads", 12, "--out", tmp, timeout=3300)
+        tmp.rename(out)
+    else:
+        ctx.coverage["walk_reused"] = "the spec->impl walk result was computed by the sibling check (C11/C13) for the same graph and the same harness binary"
     w = json.loads(out.read_text())
     ctx.coverage["graph"] = {k: w[k] for k in ("states", "edges", "labels", "edge_replays", "depth", "paths", "op_executions")}
     ctx.coverage["traces_validated_against_impl"] += w["edge_replays"] + w["paths"]
